@@ -5,6 +5,7 @@ CONSTANTS
   MaxRefs = 2
   Names <- Specific
   Hows <- HowAll
+  Positions <- Pos1
   DumpMod = 16
 INVARIANT SiblingsDoNotShadow
 CONSTRAINT Dump
